@@ -1,4 +1,349 @@
-(** placeholder while the proofs are being written *)
-Require Import NixV.Access.SliceSpec.
-Example C17_placeholder : True. Proof. exact I. Qed.
-Print Assumptions C17_placeholder.
+(** C17 - Position-based slices and DataView windows address exactly their region; and the second half of
+    C18: retrieval is invariant under exact rescaling of the request.  Statements only; each closed by [exact].
+
+    Model: Access/Slice.v (util::dataSlice and what it calls) and Access/View.v (nix::DataView) on top of the
+    generated C07 index functions and the C01 array model, with one switch per defect (Access/SliceSwitches.v).
+    Specification: Access/SliceSpec.v.  [slices_repaired B] = the four repairable switches are off; the theorems hold
+    for every such B, in particular for [repaired_except_pinned] (what the code can become) and for [repaired].
+    Unbounded in rank, shape, descriptor contents and 64-bit offsets / counts.
+
+    [idx_spec d p] (inside [slice_hyps] / [pad_ok]) is the C07 statement "converting position p on dimension d
+    returns, for every rule, the index the rule defines": proved for sampled dimensions (C17_sampled_idx_spec),
+    a hypothesis of exactly that shape for set / data-frame / range dimensions. *)
+From Coq Require Import ZArith Bool String List Reals.
+From Flocq Require Import Core BinarySingleNaN.
+Require Import NixV.Base.Prelude NixV.Base.F64 NixV.Base.F64Facts NixV.Gen.GenDimensions NixV.Axis.AxisSpec
+               NixV.Axis.SampledProofs NixV.Data.NDIndex NixV.Data.NDArr
+               NixV.Access.SliceSwitches NixV.Access.View NixV.Access.Slice NixV.Access.SliceSpec
+               NixV.Access.SliceFacts NixV.Access.ViewProofs NixV.Access.SliceProofs.
+Import ListNotations.
+Local Open Scope Z_scope.
+
+(** * Slices *)
+
+(** model = specification: dataSlice returns the box whose per-dimension index lists are what the brute-force
+    evaluator computes, and an error exactly when the evaluator reports one *)
+Theorem C17_slice_meets_spec : forall B dims shape start end_ units rm,
+  slices_repaired B -> slice_hyps dims shape start end_ units rm ->
+  (pads_with_positions B = false \/ List.length start = List.length dims) ->
+  match data_slice B dims shape start end_ units rm with
+  | Ok v => spec_slice dims shape start end_ units rm = Ok (box_lists (v_offset v) (v_count v)) /\
+            fits shape (v_offset v) (v_count v) = true
+  | Err _ => exists e, spec_slice dims shape start end_ units rm = Err e
+  | UB _ => False
+  end.
+Proof. exact data_slice_meets_spec. Qed.
+Print Assumptions C17_slice_meets_spec.
+
+(** the evaluator's answer read as the property states it: the indices whose coordinates lie in [start, end]
+    (inclusive) or [start, end) (exclusive), provided there is one and all lie in the data; an error otherwise *)
+Theorem C17_spec_dim_exact : forall d n s e incl,
+  axis_ok d -> finite s -> finite e -> 0 <= n ->
+  match spec_dim d n (RInt s e incl) with
+  | Ok l => (forall i, In i l <-> region d n (RInt s e incl) i) /\ l <> [] /\
+            (forall i, region d n (RInt s e incl) i -> 0 <= i < n)
+  | Err _ => (forall i, ~ region d n (RInt s e incl) i) \/ (exists i, region d n (RInt s e incl) i /\ ~ (0 <= i < n))
+  | UB _ => False
+  end.
+Proof. exact spec_dim_exact. Qed.
+Print Assumptions C17_spec_dim_exact.
+
+(** slice_exact: a returned slice lies in the data; in every specified dimension its extent is exactly the region
+    of the request; every unspecified dimension is included in full *)
+Theorem slice_exact : forall B dims shape start end_ units rm v,
+  slices_repaired B -> slice_hyps dims shape start end_ units rm ->
+  (pads_with_positions B = false \/ List.length start = List.length dims) ->
+  data_slice B dims shape start end_ units rm = Ok v ->
+  fits shape (v_offset v) (v_count v) = true /\
+  (forall j d n s e, nth_error dims j = Some d -> nth_error shape j = Some n ->
+     nth_error start j = Some s -> nth_error end_ j = Some e ->
+     exists r o c, spec_req d s e (nth j units None) rm = Ok r /\
+       nth_error (v_offset v) j = Some o /\ nth_error (v_count v) j = Some c /\ 1 <= c /\
+       (forall i, o <= i < o + c <-> region d n r i)) /\
+  (forall j n, (List.length start <= j)%nat -> nth_error shape j = Some n ->
+     nth_error (v_offset v) j = Some 0 /\ nth_error (v_count v) j = Some n).
+Proof. exact slice_exact_thm. Qed.
+Print Assumptions slice_exact.
+
+(** with the padding the code has and keeps, an unspecified dimension is returned in full in Inclusive mode *)
+Theorem slice_unspecified_full_inclusive : forall B dims shape start end_ units v j d n,
+  slice_reads_argument_vectors B = false -> slice_point_snaps B = false -> pads_with_positions B = true ->
+  (List.length start <= List.length dims)%nat -> (List.length end_ <= List.length dims)%nat ->
+  (List.length units <= List.length dims)%nat ->
+  data_slice B dims shape start end_ units RangeMatch_Inclusive = Ok v ->
+  (List.length start <= j)%nat -> (List.length end_ <= j)%nat -> (List.length units <= j)%nat ->
+  nth_error dims j = Some d -> nth_error shape j = Some n -> axis_ok d ->
+  (forall s e, pad_start true d = Ok s -> pad_end true d shape j = Ok e -> pad_ok d n s e) ->
+  nth_error (v_offset v) j = Some 0 /\ nth_error (v_count v) j = Some n.
+Proof. exact unspecified_full_inclusive. Qed.
+Print Assumptions slice_unspecified_full_inclusive.
+
+(** ... and in Exclusive mode it loses its last element: the pinned open finding (DESIGN.md appendix B.3,
+    testFlexibleTagging).  4 x 5 array, first dimension given: the code returns 4 of the 5 elements of the second. *)
+Theorem slice_unspecified_full_exclusive_refuted :
+  data_slice repaired_except_pinned [d_time; d_set] [4; 5] [ofZ 0] [ofZ 1] [] RangeMatch_Exclusive = Ok (mkView [0; 0] [2; 4]) /\
+  spec_slice [d_time; d_set] [4; 5] [ofZ 0] [ofZ 1] [] RangeMatch_Exclusive = Ok [[0; 1]; [0; 1; 2; 3; 4]] /\
+  data_slice repaired [d_time; d_set] [4; 5] [ofZ 0] [ofZ 1] [] RangeMatch_Exclusive = Ok (mkView [0; 0] [2; 5]).
+Proof. exact slice_unspecified_full_exclusive_refuted. Qed.
+Print Assumptions slice_unspecified_full_exclusive_refuted.
+
+(** start > end is refused, by every behaviour *)
+Theorem slice_start_gt_end_rejected : forall B dims shape start end_ units rm v j s e,
+  (List.length start <= List.length dims)%nat -> (List.length end_ <= List.length dims)%nat ->
+  (List.length units <= List.length dims)%nat ->
+  data_slice B dims shape start end_ units rm = Ok v ->
+  nth_error start j = Some s -> nth_error end_ j = Some e -> fgt s e = false.
+Proof. exact start_gt_end_rejected. Qed.
+Print Assumptions slice_start_gt_end_rejected.
+
+(** an empty region and a region that leaves the data are refused *)
+Theorem slice_oob_rejected : forall B dims shape start end_ units rm j d n s e r,
+  slices_repaired B -> slice_hyps dims shape start end_ units rm ->
+  (pads_with_positions B = false \/ List.length start = List.length dims) ->
+  nth_error dims j = Some d -> nth_error shape j = Some n -> nth_error start j = Some s -> nth_error end_ j = Some e ->
+  spec_req d s e (nth j units None) rm = Ok r ->
+  ((forall i, ~ region d n r i) \/ (exists i, region d n r i /\ ~ (0 <= i < n))) ->
+  exists err, data_slice B dims shape start end_ units rm = Err err.
+Proof. exact slice_oob_rejected_thm. Qed.
+Print Assumptions slice_oob_rejected.
+
+(** the hypotheses are met: sampled dimensions satisfy [idx_spec] and [axis_ok] by the C07 theorem; the padding
+    values of every dimension kind start at the first and end at the last coordinate; getSIScaling is the quotient
+    of the prefix factors for every prefix of the generated table *)
+Theorem C17_sampled_idx_spec : forall dt off u p,
+  finite p -> finite (off_or0 off) -> finite dt -> (0 < B2R dt)%R -> axis_finite dt (off_or0 off) ->
+  idx_spec (DSampled dt off u) p.
+Proof. exact sampled_idx_spec. Qed.
+Print Assumptions C17_sampled_idx_spec.
+
+Theorem C17_sampled_axis_ok : forall dt off u,
+  finite (off_or0 off) -> finite dt -> (0 < B2R dt)%R -> axis_finite dt (off_or0 off) -> axis_ok (DSampled dt off u).
+Proof. exact sampled_axis_ok. Qed.
+Print Assumptions C17_sampled_axis_ok.
+
+Theorem C17_unit_ok_known : forall u d,
+  (forall a, u = Some a -> In (fst a) known_prefixes) ->
+  (forall b, dim_unit d = Some b -> In (fst b) known_prefixes) -> unit_ok u d.
+Proof. exact unit_ok_known. Qed.
+Print Assumptions C17_unit_ok_known.
+
+Theorem C17_pad_values_sampled : forall dt off u shape j n s e,
+  finite dt -> finite (off_or0 off) -> axis_finite dt (off_or0 off) ->
+  nth_error shape j = Some n -> 1 <= n < two64 ->
+  pad_start true (DSampled dt off u) = Ok s -> pad_end true (DSampled dt off u) shape j = Ok e ->
+  (B2R s <= B2R (dim_x (DSampled dt off u) 0))%R /\ e = dim_x (DSampled dt off u) (n - 1).
+Proof. exact pad_values_sampled. Qed.
+Print Assumptions C17_pad_values_sampled.
+
+Theorem C17_pad_values_range : forall ticks u shape j n s e,
+  nth_error shape j = Some n -> 1 <= n < two64 ->
+  pad_start true (DRange ticks u) = Ok s -> pad_end true (DRange ticks u) shape j = Ok e ->
+  s = dim_x (DRange ticks u) 0 /\ e = dim_x (DRange ticks u) (n - 1) /\ n <= dim_N (DRange ticks u).
+Proof. exact pad_values_range. Qed.
+Print Assumptions C17_pad_values_range.
+
+Theorem C17_pad_values_int : forall d shape j n s e, (exists l, d = DSet l) \/ (exists r, d = DFrame r) ->
+  nth_error shape j = Some n -> 1 <= n <= AXIS_MAX ->
+  pad_start true d = Ok s -> pad_end true d shape j = Ok e ->
+  B2R s = B2R (dim_x d 0) /\ e = dim_x d (n - 1).
+Proof. exact pad_values_int. Qed.
+Print Assumptions C17_pad_values_int.
+
+(** positionAndExtentInData, for all unsigned 64-bit positions and counts *)
+Theorem C17_in_data_spec : forall B extent pos cnt, extent_check_wraps B = false ->
+  List.length pos = List.length extent -> List.length cnt = List.length extent ->
+  all_u64 extent -> all_u64 pos -> all_u64 cnt ->
+  position_and_extent_in_data B extent pos cnt = Ok (spec_in_data extent pos cnt).
+Proof. exact in_data_spec. Qed.
+Print Assumptions C17_in_data_spec.
+
+(** * C18, second half *)
+
+(** rescale_invariant, one dimension, parametric in the factor f: (s', e', unit') with fmul s' f = s and
+    fmul e' f = e selects what (s, e, dimension unit) selects *)
+Theorem rescale_invariant : forall B rm d sa ea sa' ea' s e s' e' u' f,
+  slice_reads_argument_vectors B = false -> slice_point_snaps B = false -> has_unit d ->
+  pair_factor u' (dim_unit d) = Ok f ->
+  fmul s' f = s -> fmul e' f = e ->
+  fgt s' e' = fgt s e -> feq s' e' = feq s e ->
+  slice_dim B rm d sa' ea' s' e' u' = slice_dim B rm d sa ea s e (dim_unit d).
+Proof. exact rescale_invariant_dim. Qed.
+Print Assumptions rescale_invariant.
+
+(** the order conditions follow from exactness: scaling by a positive factor without rounding *)
+Theorem C18_exact_scaling_order : forall s' e' f,
+  finite s' -> finite e' -> finite (fmul s' f) -> finite (fmul e' f) -> (0 < B2R f)%R ->
+  B2R (fmul s' f) = (B2R s' * B2R f)%R -> B2R (fmul e' f) = (B2R e' * B2R f)%R ->
+  fgt s' e' = fgt (fmul s' f) (fmul e' f) /\ feq s' e' = feq (fmul s' f) (fmul e' f).
+Proof. exact exact_scaling_order. Qed.
+Print Assumptions C18_exact_scaling_order.
+
+(** the whole slice *)
+Theorem rescale_invariant_slice : forall B dims shape start end_ units start' end' units' rm,
+  slice_reads_argument_vectors B = false -> slice_point_snaps B = false ->
+  List.length start = List.length dims -> List.length end_ = List.length dims -> List.length units = List.length dims ->
+  List.length start' = List.length dims -> List.length end' = List.length dims -> List.length units' = List.length dims ->
+  (forall j d s' e' u' s e u, nth_error dims j = Some d ->
+     nth_error start' j = Some s' -> nth_error end' j = Some e' -> nth_error units' j = Some u' ->
+     nth_error start j = Some s -> nth_error end_ j = Some e -> nth_error units j = Some u ->
+     rescaled_dim d s' e' u' s e u) ->
+  data_slice B dims shape start' end' units' rm = data_slice B dims shape start end_ units rm.
+Proof. exact rescale_invariant_thm. Qed.
+Print Assumptions rescale_invariant_slice.
+
+(** getSIScaling = quotient of the prefix factors, for all 21 x 21 prefix pairs of the generated table *)
+Theorem C18_si_scaling_fdiv : forall pa pb b, In pa known_prefixes -> In pb known_prefixes ->
+  si_scaling (pa, b) (pb, b) = Ok (fdiv (factor pa) (factor pb)).
+Proof. exact si_scaling_fdiv. Qed.
+Print Assumptions C18_si_scaling_fdiv.
+
+(** * Views *)
+
+(** the constructor accepts exactly the windows that lie in the array *)
+Theorem C17_mk_view_spec : forall B extent cnt off,
+  view_check_wraps B = false -> all_u64 extent -> all_u64 cnt -> all_u64 off ->
+  (fits extent off cnt = true -> mk_view B extent cnt off = Ok (mkView off cnt)) /\
+  (fits extent off cnt = false -> exists e, mk_view B extent cnt off = Err e).
+Proof. exact mk_view_spec. Qed.
+Print Assumptions C17_mk_view_spec.
+
+(** a read through the view with offset_d + count_d <= window_d (over the integers) is the array read at
+    (origin + offset, count), cell by cell *)
+Theorem view_read_is_array_read_at_origin_plus_offset : forall B a v cnt off,
+  view_check_wraps B = false -> view_ok a v -> all_u64 cnt -> all_u64 off ->
+  inside_window v cnt off = true ->
+  view_read B v a cnt off = read_slab a (vadd (v_offset v) (real_offset v off)) (real_count v cnt) /\
+  view_read B v a cnt off = Ok (tab (real_count v cnt) (fun r => get a (vadd (vadd (v_offset v) (real_offset v off)) r))).
+Proof. exact view_read_inside. Qed.
+Print Assumptions view_read_is_array_read_at_origin_plus_offset.
+
+(** a write changes exactly the addressed cells, all inside the window; the view stays valid *)
+Theorem C17_view_write_cells : forall B a v cnt off gen a',
+  view_check_wraps B = false -> view_ok a v -> all_u64 cnt -> all_u64 off ->
+  view_write B v a cnt off gen = Ok a' ->
+  inside_window v cnt off = true /\
+  a_shape a' = a_shape a /\ view_ok a' v /\
+  (forall i, in_box (a_shape a) i = true ->
+     get a' i = if in_slab (vadd (v_offset v) (real_offset v off)) (real_count v cnt) i
+                then gen (Z.to_nat (ravel (real_count v cnt) (vsub i (vadd (v_offset v) (real_offset v off)))))
+                else get a i) /\
+  (forall i, in_slab (vadd (v_offset v) (real_offset v off)) (real_count v cnt) i = true ->
+     in_slab (v_offset v) (v_count v) i = true).
+Proof. exact view_write_cells. Qed.
+Print Assumptions C17_view_write_cells.
+
+(** the frame condition: no element outside the window changes *)
+Theorem view_write_frame : forall B a v cnt off gen a',
+  view_check_wraps B = false -> view_ok a v -> all_u64 cnt -> all_u64 off ->
+  view_write B v a cnt off gen = Ok a' ->
+  forall i, in_box (a_shape a) i = true -> in_slab (v_offset v) (v_count v) i = false -> get a' i = get a i.
+Proof. exact view_write_frame_thm. Qed.
+Print Assumptions view_write_frame.
+
+(** a request extending past the window - for ANY u64 offset and count, including sums that wrap - is refused with
+    OutOfBounds and transfers nothing (no values, no new array) *)
+Theorem view_oob_rejected : forall B a v cnt off gen,
+  view_check_wraps B = false -> view_ok a v -> all_u64 cnt -> all_u64 off -> same_rank v cnt off ->
+  inside_window v cnt off = false ->
+  view_read B v a cnt off = Err oob /\ view_write B v a cnt off gen = Err oob.
+Proof. exact view_oob_rejected_thm. Qed.
+Print Assumptions view_oob_rejected.
+
+(** model = specification for every request of the right rank *)
+Theorem C17_view_read_meets_spec : forall B a v cnt off,
+  view_check_wraps B = false -> view_ok a v -> all_u64 cnt -> all_u64 off -> same_rank v cnt off ->
+  view_read B v a cnt off = spec_view_read v a cnt off.
+Proof. exact view_read_meets_spec. Qed.
+Print Assumptions C17_view_read_meets_spec.
+
+Theorem C17_view_write_meets_spec : forall B a v cnt off gen,
+  view_check_wraps B = false -> view_ok a v -> all_u64 cnt -> all_u64 off -> same_rank v cnt off ->
+  view_write B v a cnt off gen = spec_view_write v a cnt off gen.
+Proof. exact view_write_meets_spec. Qed.
+Print Assumptions C17_view_write_meets_spec.
+
+(** * The pinned code: computed counterexamples (each is a replayable case of the check) *)
+
+(** DESIGN.md section 9 item 20: window [5,15) of 20 elements, offset 2^64-1, count 2 *)
+Theorem view_oob_rejected_refuted :
+  inside_window w5_15 [2] [two64 - 1] = false /\ view_read code_today w5_15 a20 [2] [two64 - 1] = Ok [VI 4; VI 5].
+Proof. exact view_oob_rejected_refuted. Qed.
+Print Assumptions view_oob_rejected_refuted.
+
+Theorem view_write_frame_refuted :
+  exists a', view_write code_today w5_15 a20 [2] [two64 - 1] (gen_from 500) = Ok a' /\
+             in_slab (v_offset w5_15) (v_count w5_15) [4] = false /\ get a' [4] = VI 500 /\ get a20 [4] = VI 4.
+Proof. exact view_write_frame_refuted. Qed.
+Print Assumptions view_write_frame_refuted.
+
+Theorem C17_mk_view_refuted :
+  fits [20] [3] [two64 - 1] = false /\ mk_view code_today [20] [two64 - 1] [3] = Ok (mkView [3] [two64 - 1]).
+Proof. exact mk_view_refuted. Qed.
+Print Assumptions C17_mk_view_refuted.
+
+Theorem C17_in_data_refuted :
+  spec_in_data [20] [two64 - 1] [2] = false /\ position_and_extent_in_data code_today [20] [two64 - 1] [2] = Ok true.
+Proof. exact in_data_refuted. Qed.
+Print Assumptions C17_in_data_refuted.
+
+(** item 5: fewer entries than dimensions are read past the argument vectors *)
+Theorem slice_reads_past_arguments_refuted :
+  is_ub (data_slice code_today [d_time; d_set] [4; 5] [ofZ 0] [ofZ 1] [] RangeMatch_Inclusive) = true /\
+  spec_slice [d_time; d_set] [4; 5] [ofZ 0] [ofZ 1] [] RangeMatch_Inclusive = Ok [[0; 1; 2]; [0; 1; 2; 3; 4]] /\
+  data_slice repaired_except_pinned [d_time; d_set] [4; 5] [ofZ 0] [ofZ 1] [] RangeMatch_Inclusive = Ok (mkView [0; 0] [3; 5]).
+Proof. exact slice_reads_past_arguments_refuted. Qed.
+Print Assumptions slice_reads_past_arguments_refuted.
+
+(** a point request between two coordinates is answered with the next element *)
+Theorem slice_exact_refuted :
+  let d := DSampled (ofZ 1) None None in
+  let p := ofME 5 (-1) in
+  data_slice code_today [d] [20] [p] [p] [] RangeMatch_Inclusive = Ok (mkView [3] [1]) /\
+  (exists e, spec_slice [d] [20] [p] [p] [] RangeMatch_Inclusive = Err e) /\
+  data_slice repaired_except_pinned [d] [20] [p] [p] [] RangeMatch_Inclusive = Err oob /\
+  data_slice repaired_except_pinned [d] [20] [ofZ 2] [ofZ 2] [] RangeMatch_Exclusive = Ok (mkView [2] [1]).
+Proof. exact slice_point_snaps_refuted. Qed.
+Print Assumptions slice_exact_refuted.
+
+(** * Non-vacuity: concrete arrays on which model and specification return data *)
+Example C17_slice_example :
+  let dims := [d_time; d_set; d_ticks] in
+  let shape := [4; 5; 4] in
+  let start := [ofZ 500; ofZ 1; ofZ 2] in
+  let end_ := [ofZ 1500; ofZ 3; ofZ 8] in
+  let units := [ms_unit; None] in
+  data_slice repaired_except_pinned dims shape start end_ units RangeMatch_Inclusive = Ok (mkView [1; 1; 1] [3; 3; 3]) /\
+  spec_slice dims shape start end_ units RangeMatch_Inclusive = Ok [[1; 2; 3]; [1; 2; 3]; [1; 2; 3]] /\
+  data_slice repaired_except_pinned dims shape start end_ units RangeMatch_Exclusive = Ok (mkView [1; 1; 1] [2; 2; 2]) /\
+  spec_slice dims shape start end_ units RangeMatch_Exclusive = Ok [[1; 2]; [1; 2]; [1; 2]] /\
+  data_slice code_today dims shape start end_ units RangeMatch_Exclusive = Ok (mkView [1; 1; 1] [2; 2; 2]).
+Proof. exact slice_example. Qed.
+Print Assumptions C17_slice_example.
+
+Example C17_slice_rejections :
+  data_slice repaired_except_pinned [d_time] [4] [ofZ 1] [ofZ 0] [] RangeMatch_Inclusive = Err "std::invalid_argument"%string /\
+  data_slice repaired_except_pinned [d_time] [4] [ofZ 1] [ofZ 5] [] RangeMatch_Inclusive = Err oob /\
+  data_slice repaired_except_pinned [d_time] [4] [ofZ 1] [ofZ 1] [Some ("m"%string, "V"%string)] RangeMatch_Inclusive = Err incompatible.
+Proof. exact slice_rejections. Qed.
+Print Assumptions C17_slice_rejections.
+
+Example C17_rescale_example :
+  data_slice repaired_except_pinned [d_time] [4] [ofZ 500] [ofZ 1500] [ms_unit] RangeMatch_Inclusive =
+  data_slice repaired_except_pinned [d_time] [4] [half] [ofME 3 (-1)] [dim_unit d_time] RangeMatch_Inclusive /\
+  data_slice repaired_except_pinned [d_time] [4] [ofZ 500] [ofZ 1500] [ms_unit] RangeMatch_Inclusive = Ok (mkView [1] [3]).
+Proof. exact rescale_example. Qed.
+Print Assumptions C17_rescale_example.
+
+Example C17_view_examples :
+  view_read repaired w5_15 a20 [2] [two64 - 1] = Err oob /\
+  view_write repaired w5_15 a20 [2] [two64 - 1] (gen_from 500) = Err oob /\
+  mk_view repaired [20] [two64 - 1] [3] = Err oob /\
+  view_read repaired w5_15 a20 [2] [8] = Ok [VI 13; VI 14] /\
+  view_read repaired w5_15 a20 [2] [9] = Err oob.
+Proof. exact view_repaired_examples. Qed.
+Print Assumptions C17_view_examples.
+
+(** * The open obligation: the library under test has the repaired behaviour.  Fails until the proposed patches
+    (notes/proposed-fixes/C17-*.patch) have landed and [current_behaviour] has been switched. *)
+Theorem current_is_repaired : current_behaviour = repaired_except_pinned.
+Proof. reflexivity. Qed.
